@@ -20,15 +20,16 @@ import (
 type Action int
 
 const (
-	Pass         Action = iota
-	KillBefore          // close the connection instead of forwarding the request (broker never sees it)
-	DropResponse        // forward the request, let the broker handle it, then close instead of delivering the response
-	TruncResponse       // deliver only part of the response frame, then close
-	DelayResponse       // hold the response for Delay (virtual time)
+	Pass            Action = iota
+	KillBefore             // close the connection instead of forwarding the request (broker never sees it)
+	DropResponse           // forward the request, let the broker handle it, then close instead of delivering the response
+	TruncResponse          // deliver only part of the response frame, then close
+	DelayResponse          // hold the response for Delay (virtual time)
+	RewriteResponse        // let the broker handle the request, then hand the client a rewritten response (Rule.Rewrite)
 )
 
 func (a Action) String() string {
-	return [...]string{"pass", "kill-before", "drop-response", "trunc-response", "delay-response"}[a]
+	return [...]string{"pass", "kill-before", "drop-response", "trunc-response", "delay-response", "rewrite-response"}[a]
 }
 
 // Rule: the Nth (0-based) request with Key seen by the net (counted over all
@@ -39,6 +40,9 @@ type Rule struct {
 	Act   Action
 	Delay time.Duration
 	Trunc int // bytes of the response frame to deliver for TruncResponse
+	// Rewrite maps the response body (correlation id onwards) to the body delivered instead.
+	Rewrite func(ri *ReqInfo, body []byte) []byte
+	Code    int16 // informational: error code a Rewrite injects
 }
 
 func (r Rule) String() string {
@@ -68,7 +72,7 @@ type Net struct {
 	counts  map[int16]int
 	nconn   int
 	reqs    []*ReqInfo
-	keep    bool // keep request frames
+	keep    bool           // keep request frames
 	OnReq   func(*ReqInfo) // observer, called with mu NOT held
 	blocked bool           // refuse all new dials (unreachable brokers)
 	conns   map[*conn]struct{}
@@ -95,6 +99,14 @@ func (n *Net) SetRules(rules []Rule, reset bool) {
 func (n *Net) AddRuleNext(key int16, act Action, delay time.Duration) {
 	n.mu.Lock()
 	n.rules = append(n.rules, Rule{Key: key, Nth: n.counts[key], Act: act, Delay: delay})
+	n.mu.Unlock()
+}
+
+// AddRule adds a fully specified rule; Nth is relative to the requests seen so far.
+func (n *Net) AddRule(r Rule) {
+	n.mu.Lock()
+	r.Nth += n.counts[r.Key]
+	n.rules = append(n.rules, r)
 	n.mu.Unlock()
 }
 
@@ -149,7 +161,9 @@ func (n *Net) Requests() []*ReqInfo {
 func (n *Net) Count(key int16) int { n.mu.Lock(); defer n.mu.Unlock(); return n.counts[key] }
 
 // Listen is passed to kfake.ListenFn.
-func (n *Net) Listen(network, address string) (net.Listener, error) { return n.Stack.Listen(network, address) }
+func (n *Net) Listen(network, address string) (net.Listener, error) {
+	return n.Stack.Listen(network, address)
+}
 
 // DialContext is passed to kgo.Dialer.
 func (n *Net) DialContext(ctx context.Context, network, address string) (net.Conn, error) {
@@ -298,6 +312,14 @@ func (c *conn) Read(p []byte) (int, error) {
 			c.rbuf = append(c.rbuf, full[:k]...)
 			c.Conn.Close()
 			c.rerr = io.ErrUnexpectedEOF
+		case RewriteResponse:
+			if rule.Rewrite != nil {
+				if nb := rule.Rewrite(ri, body); nb != nil {
+					body = nb
+					binary.BigEndian.PutUint32(hdr[:], uint32(len(body)))
+				}
+			}
+			c.rbuf = append(append(c.rbuf, hdr[:]...), body...)
 		case DelayResponse:
 			time.Sleep(rule.Delay)
 			c.rbuf = append(append(c.rbuf, hdr[:]...), body...)
